@@ -373,6 +373,21 @@ func (ps *parser) seq(i, end int, top bool) []Node {
 	return nodes
 }
 
+// UnclosedGroup reports whether the pattern text has an unescaped extended
+// operator ("?(", "*(", "+(", "@(", "!(") for which bash's scanner finds no
+// closing parenthesis. It looks at the text only (an operator inside a bracket
+// expression is counted too), so it can be used when the parse stopped early.
+func UnclosedGroup(pat string) bool {
+	for i := 0; i+1 < len(pat); i++ {
+		if strings.IndexByte("?*+@!", pat[i]) >= 0 && pat[i+1] == '(' && backslashesBefore(pat, i)%2 == 0 {
+			if patscan(pat, i+2, len(pat), 0) < 0 {
+				return true
+			}
+		}
+	}
+	return false
+}
+
 // topBars returns the indexes of the "|" characters that separate the
 // alternatives of the pattern list s[i:end], using the same rules as patscan.
 func topBars(s string, i, end int) []int {
